@@ -1,3 +1,4 @@
+// @READY (registered in vf/props.py)
 // appended to src/common/alccodec/alcnocode.rs (scratch copy only) -- RFC 5445 (FEC Encoding ID 0, Compact No-Code)
 #[cfg(any(kani, test))]
 #[allow(dead_code, unused_imports, unused_macros)]
